@@ -2021,6 +2021,27 @@ def oracle(case, obs):
             return out
         _oracle_steps(case, steps, recs_of, fails)
     elif k == "cfg":
+        # C07 "never rebound": across a reloadconfig a socket whose section is the same in both versions of the file stays
+        # the very socket it was (same kernel object, same descriptor) — whatever happens to other sections
+        vnow = 0
+        for n, st in enumerate(obs["steps"]):
+            if st["act"][0] == "reload" and n > 0 and not st.get("blocked"):
+                v = st["act"][1]
+                before = {nm: d for nm, d in obs["steps"][n - 1]["socks"]}
+                after = {nm: d for nm, d in st["socks"]}
+                old = {k_["name"]: k_ for k_ in case["versions"][vnow]}
+                new = {k_["name"]: k_ for k_ in case["versions"][v]}
+                for nm in sorted(set(old) & set(new)):
+                    if old[nm] != new[nm]:
+                        continue
+                    b, a = before.get(nm.lower(), before.get(nm)), after.get(nm.lower(), after.get(nm))
+                    if b is None:
+                        continue
+                    if a is None or list(b[:2]) != list(a[:2]):
+                        fails.append(_fail("C07:managed-socket-rebound-or-closed",
+                                           "step %d (reload %d): the section of socket %s is the same in both files, the daemon "
+                                           "held %r before the reload and holds %r after it" % (n, v, nm, b[:2], None if a is None else a[:2])))
+                vnow = v
         for n, st in enumerate(obs["steps"]):
             where = "step %d (%s)" % (n, " ".join(str(x) for x in st["act"]))
             # C08: nothing of a removed or replaced socket stays behind, at any moment
